@@ -178,7 +178,10 @@ func evaluate(p *pg.Prog, vals []pg.Val, text string, vars []interface{}, number
 			continue
 		}
 		match := false
-		for _, alt := range vals[si].Alts {
+		for ai, alt := range vals[si].Alts {
+			if ai == vals[si].PerByteAlt && !p.Slots[si].Spec.ListCtx {
+				continue // per-byte binding is admissible only where gorm expands a list
+			}
 			want := alt
 			if exec {
 				cv, ok := convert(alt)
@@ -664,7 +667,7 @@ func main() {
 	run.Assume("Limit/Offset binding is checked under the two DryRun dialectors only (the SQLite dialector's own LIMIT builder inlines integers)")
 	run.Assume("the executed slice checks the text and converted arguments received by the recording driver; whether the rows selected are the intended ones is C02's oracle")
 	run.Assume("executed slice: an explicit RETURNING call in front of a finisher whose destination cannot receive rows ([]map, map update without model) makes gorm's Scan panic in the real run on the unchanged tree; classified by that input-side predicate (the statement the driver received is still checked), not a C01 matter")
-	run.Assume("a []byte argument is accepted as one bound value, or one value per byte where gorm expands a list (IN (?), map conditions): both satisfy 'one placeholder per bound value'")
+	run.Assume("a byte-kind argument ([]byte, json.RawMessage, net.IP, named byte slice, byte array) must be ONE bound value; one value per byte is accepted only at positions where gorm expands slices into a list (\"(?)\" after a parenthesis, WithoutParentheses, map conditions)")
 	run.Finish(map[string]interface{}{
 		"evaluations":                       st.evals,
 		"distinct_nontrivial":               skeletons.Len(),
